@@ -129,7 +129,7 @@ def slack_of(c, d, o, base, k, u):
   amin = 0.0 if len(c["exps"]) < d["m"] else 10.0 ** (c["c"] - max(c["exps"]))
   lam = amax if d["lamSource"] == "hidden" else o["lam"]
   dd = 10.0 ** -c["eexp"] * {"abs": 1.0, "rel_floor": 10.0 ** -d["floorExp"], "rel_lam": lam}[base] * 10.0 ** k
-  return SLACK_C * c["n"] * c["p"] * u * amax / (amin + dd)
+  return SLACK_C * c["n"] * c["p"] * u * max(1.0, amax / (amin + dd))      # InvRoot!CondLo (never below 1)
 
 
 def calibrate(ck, pairs, verdicts):
